@@ -373,6 +373,8 @@ class Frame:
             cn = strip_targs(n.get("cname") or "")
             if cn.startswith("std::basic_string::") and len(args) >= 1:
                 return self.eval(args[0])
+            if len(args) == 1 and "iterator" in strip_targs(n.get("crec") or "") and "iterator" in (self.nodes[args[0]].get("t") or ""):
+                return self.eval(args[0])        # iterator -> const_iterator conversion
             if strip_targs(n.get("crec") or "") == "std::pair" and len(args) == 2:
                 return pair(self.eval(args[0]), self.eval(args[1]))
             if strip_targs(n.get("crec") or "") in ("boost::shared_ptr", "std::shared_ptr") and len(args) == 1:
@@ -481,6 +483,10 @@ class Frame:
                     if not (0 <= v.pos < len(v.lst)):
                         raise Thrown("dereference of an iterator past the end", self.fn.loc(i))
                     return v.lst[v.pos]
+                if isinstance(v, MapIter) and op == "*":
+                    if v.key is None:
+                        raise Thrown("dereference of map::end()", self.fn.loc(i))
+                    return pair(v.key, v.m[v.key])
                 return v
             self.bad(i, "operator" + str(op))
         if ck == "method":
